@@ -1344,6 +1344,14 @@ func (vfs *MemFS) rename(oldpath, newpath string) (retry bool, err error) {
 		return false, vfs.err.FileExists
 	}
 
+	_, oIsDir := oChild.(*dirNode)
+	_, nIsDir := nChild.(*dirNode)
+
+	if !nIsDir && oIsDir && strings.HasPrefix(nPI.Path(), oPI.Path()+string(vfs.PathSeparator())) {
+		// A directory can't be moved into itself : rename(2) finds that out before any permission is checked.
+		return false, vfs.err.InvalidArgument
+	}
+
 	if !oParent.checkPermission(avfs.OpenWrite, vfs.User()) {
 		return false, vfs.err.PermDenied
 	}
@@ -1352,8 +1360,6 @@ func (vfs *MemFS) rename(oldpath, newpath string) (retry bool, err error) {
 		return false, vfs.err.PermDenied
 	}
 
-	_, oIsDir := oChild.(*dirNode)
-
 	if oPI.Path() == nPI.Path() {
 		if oIsDir && vfs.Clean(oldpath) == vfs.Clean(newpath) && vfs.OSType() != avfs.OsWindows {
 			// os.Rename refuses an existing directory as new name, unless it is the same directory under another name.
@@ -1361,13 +1367,6 @@ func (vfs *MemFS) rename(oldpath, newpath string) (retry bool, err error) {
 		}
 
 		return false, nil
-	}
-
-	_, nIsDir := nChild.(*dirNode)
-
-	if !nIsDir && oIsDir && strings.HasPrefix(nPI.Path(), oPI.Path()+string(vfs.PathSeparator())) {
-		// A directory can't be moved into itself.
-		return false, vfs.err.InvalidArgument
 	}
 
 	if nChild == nil && oIsDir && nParent != oParent && !oDirWritable {
